@@ -150,6 +150,25 @@ def gen_good(lits):
     lines.append("    let s: &[unic_langid::LanguageIdentifier] = langid_slice![\"en-US\", \"fr\", \"de_1996\"];")
     lines.append("    let l: Vec<unic_locale::Locale> = locales![\"en-US-u-ca-buddhist\", \"fr\",];")
     lines.append("    let e: Vec<unic_langid::LanguageIdentifier> = langids![];")
+    # every list macro in every spelling (trailing comma or not, one element, none) in a position that fixes its type:
+    # a typed let, a const / static item (the slice form is usable in constants), a function argument
+    lines.append("    let s2: &[unic_langid::LanguageIdentifier] = langid_slice![\"en-US\", \"fr\", \"de_1996\",];")
+    lines.append("    let s3: &[unic_langid::LanguageIdentifier] = langid_slice![\"en-US\"];")
+    lines.append("    let s4: &[unic_langid::LanguageIdentifier] = langid_slice![\"en-US\",];")
+    lines.append("    let s5: &[unic_langid::LanguageIdentifier] = langid_slice![];")
+    lines.append("    const S6: &[unic_langid::LanguageIdentifier] = langid_slice![\"en-US\", \"fr\",];")
+    lines.append("    static S7: &[unic_langid::LanguageIdentifier] = langid_slice![\"en-US\", \"fr\"];")
+    lines.append("    fn takes_slice(x: &[unic_langid::LanguageIdentifier]) -> usize { x.len() }")
+    lines.append("    fn takes_vec(x: Vec<unic_langid::LanguageIdentifier>) -> usize { x.len() }")
+    lines.append("    fn takes_locs(x: Vec<unic_locale::Locale>) -> usize { x.len() }")
+    lines.append("    let v2: Vec<unic_langid::LanguageIdentifier> = langids![\"en-US\", \"fr\", \"de_1996\"];")
+    lines.append("    let v3: Vec<unic_langid::LanguageIdentifier> = langids![\"en-US\",];")
+    lines.append("    let l2: Vec<unic_locale::Locale> = locales![\"en-US-u-ca-buddhist\", \"fr\"];")
+    lines.append("    let l3: Vec<unic_locale::Locale> = locales![\"fr\",];")
+    lines.append("    let l4: Vec<unic_locale::Locale> = locales![];")
+    lines.append("    let spellings_ok = s2 == s && s3.len() == 1 && s4 == s3 && s5.is_empty() && S6.len() == 2 && S7 == S6 && S6[0] == s[0] && S6[1] == s[1]")
+    lines.append("        && takes_slice(langid_slice![\"en\", \"de\",]) == 2 && takes_vec(langids![\"en\", \"de\",]) == 2 && takes_locs(locales![\"en\", \"de-u-ca-buddhist\",]) == 2")
+    lines.append("        && v2 == v && v3.as_slice() == s3 && l2 == l && l3.len() == 1 && l3[0] == l[1] && l4.is_empty();")
     # long lists (300 literals): the list macros have no length limit below the compiler's own
     big = ["%s%s-%s%s" % (chr(97 + i % 26), chr(97 + (i // 26) % 26), chr(65 + (i * 7) % 26), chr(65 + (i * 11) % 26)) + ("-valencia" if i % 5 == 0 else "") for i in range(300)]
     bigl = [b + ("-u-ca-buddhist" if i % 3 == 0 else "-t-h0-hybrid" if i % 3 == 1 else "") for i, b in enumerate(big)]
@@ -162,7 +181,7 @@ def gen_good(lits):
     lines.append("        && bv.iter().zip(BIG.iter()).all(|(a, b)| *a == b.parse::<unic_langid::LanguageIdentifier>().unwrap())")
     lines.append("        && bl.iter().zip(BIGL.iter()).all(|(a, b)| *a == b.parse::<unic_locale::Locale>().unwrap());")
     lines.append("    let ok = v.len() == 3 && s.len() == 3 && l.len() == 2 && e.is_empty() && v.as_slice() == s && v[0] == \"en-US\".parse::<unic_langid::LanguageIdentifier>().unwrap() && v[2] == \"de-1996\".parse::<unic_langid::LanguageIdentifier>().unwrap() && l[0] == \"en-US-u-ca-buddhist\".parse::<unic_locale::Locale>().unwrap();")
-    lines.append("    println!(\"#LISTS\\t{}\", ok && big_ok);")
+    lines.append("    println!(\"#LISTS\\t{}\", ok && big_ok && spellings_ok);")
     lines.append("}")
     return "\n".join(lines) + "\n", where
 
